@@ -19,6 +19,9 @@
 #include <fcppt/enum/to_string_impl_fwd.hpp>
 #include <fcppt/extract_from_string.hpp>
 #include <fcppt/filesystem/file_size.hpp>
+#include <fcppt/narrow_locale.hpp>
+#include <fcppt/optional_std_string.hpp>
+#include <fcppt/widen_locale.hpp>
 #include <fcppt/filesystem/remove_extension.hpp>
 #include <fcppt/io/read_chars.hpp>
 #include <fcppt/io/stream_to_string.hpp>
@@ -240,9 +243,80 @@ void remove_scratch()
 #include "c01_env.cpp"
 namespace c01
 {
+// narrow_locale / widen_locale through the real codecvt loop in C.utf8 (total: a value or the documented failure, never a
+// write behind the conversion buffer); the same line as C15's `nw`, exact-size input buffers
+std::string nw_hex(std::string const &s)
+{
+  if (s.empty())
+    return "-";
+  static char const *const d = "0123456789abcdef";
+  std::string r;
+  for (unsigned char c : s)
+  {
+    r += d[c >> 4];
+    r += d[c & 15];
+  }
+  return r;
+}
+
+std::string nw_line(std::string const &whex)
+{
+  auto const hv = [](char c) -> int { return c >= '0' && c <= '9' ? c - '0' : c >= 'a' && c <= 'f' ? c - 'a' + 10 : -1; };
+  std::wstring ws;
+  if (whex != "-")
+  {
+    if (whex.size() % 8 != 0)
+      return "bad-op";
+    for (std::size_t i = 0; i < whex.size(); i += 8)
+    {
+      std::uint32_t u = 0;
+      for (std::size_t k = 0; k < 8; ++k)
+      {
+        if (hv(whex[i + k]) < 0)
+          return "bad-op";
+        u = (u << 4) | static_cast<std::uint32_t>(hv(whex[i + k]));
+      }
+      ws += static_cast<wchar_t>(u);
+    }
+  }
+  static std::locale const loc{"C.utf8"};
+  std::unique_ptr<wchar_t[]> const wb{new wchar_t[ws.size()]};
+  for (std::size_t i = 0; i < ws.size(); ++i)
+    wb[i] = ws[i];
+  fcppt::optional_std_string const n{fcppt::narrow_locale(std::wstring_view{wb.get(), ws.size()}, loc)};
+  if (!n.has_value())
+    return "n=none w=-";
+  std::string const &ns{n.get_unsafe()};
+  std::unique_ptr<char[]> const nb{new char[ns.size()]};
+  for (std::size_t i = 0; i < ns.size(); ++i)
+    nb[i] = ns[i];
+  std::string w;
+  try
+  {
+    std::wstring const back{fcppt::widen_locale(std::string_view{nb.get(), ns.size()}, loc)};
+    std::string bytes;
+    for (wchar_t const c : back)
+    {
+      std::uint32_t const u{static_cast<std::uint32_t>(c)};
+      bytes += static_cast<char>(u >> 24);
+      bytes += static_cast<char>((u >> 16) & 0xFF);
+      bytes += static_cast<char>((u >> 8) & 0xFF);
+      bytes += static_cast<char>(u & 0xFF);
+    }
+    w = "some " + nw_hex(bytes);
+  }
+  catch (std::runtime_error const &)
+  {
+    w = "exc";
+  }
+  return "n=some " + nw_hex(ns) + " w=" + w;
+}
+
 std::string handle1(std::vector<std::string> const &t)
 {
   std::string const &op = t[0];
+  if (op == "nw" && t.size() == 2)
+    return nw_line(t[1]);
   if (auto r = handle_env(t))
     return *r;
   if (op == "atopt" && t.size() == 3)
